@@ -44,12 +44,22 @@ theorem root_loads (tbl : Tbl) (id : Nat) (a : Attrs) (ks : List PTree) (fuel : 
   simp only [nodeRec] at this
   simp [loadRoot, this, rootRec, nodeRec]
 
-/-- Clause "the reported number of pages equals the number of leaf pages". -/
+/-- Clause "the reported number of pages equals the number of leaf pages" — **by construction**: `rootRec t` is *defined*
+    with the count `nLeaves t`, and `numPages` reads that field, so this is an unfolding (`dfsL_length`), not a fact
+    about a file. What carries the content is `root_loads` (the record loaded from a well-formed table *is* `rootRec t`,
+    which needs the accurate /Count that `represents` demands) and their composition `num_pages_of_table` below. -/
 theorem num_pages_eq_leaves (t : PTree) (hn : isNode t = true) :
     numPages (rootRec t) = (leavesOf t).length := by
   cases t with
   | leaf _ _ => simp [isNode] at hn
   | node id a ks => simp [numPages, rootRec, nodeRec, leavesOf, dfsL_length]
+
+/-- Clause "the reported number of pages equals the number of leaf pages", for a file: the root record loaded from any
+    well-formed rendering of the tree reports the number of leaves (composition of `root_loads` and the unfolding above). -/
+theorem num_pages_of_table (tbl : Tbl) (id : Nat) (a : Attrs) (ks : List PTree) (fuel : Nat)
+    (wf : represents tbl none (.node id a ks) = true) (hf : 0 < fuel) (hsz : nLeaves (.node id a ks) < 4294967296) :
+    (loadRoot tbl fuel id).bind (fun r => .ok (numPages r)) = .ok (leavesOf (.node id a ks)).length := by
+  rw [root_loads tbl id a ks fuel wf hf hsz, Out.bind_ok, num_pages_eq_leaves _ rfl]
 
 /-- Corollary: every index below `num_pages` is served, every index from `num_pages` on is an error. -/
 theorem page_ok_iff_lt_num_pages (tbl : Tbl) (id : Nat) (a : Attrs) (ks : List PTree) (fuel : Nat)
@@ -199,8 +209,12 @@ Hypotheses that remain, all explicit:
 * the file stays below 2³¹ bytes (`fileMax`, the range of the lexer theorems) and the parser fuel is at least three
   times its length; `n ≤ 1 000 000` objects; markers (the values of the attributes) fit an `i32`;
 * height ≤ 16 (the depth budget), fewer than 2³¹ leaves (/Count is written as an `i32`).
-What is *not* discharged: `nodeOf` is a hand-written reading of `PagesNode::from_primitive` restricted to the six keys
-C07 observes, not the generated readers of `PageTree` / `Page` (`Generated/Schemas.lean`) — see `C07_bytes_full`.
+Node reader: in this first part `nodeOf`, a hand-written reading of `PagesNode::from_primitive` restricted to the six
+keys C07 observes. The generated readers of `PageTree` / `Page` (`Generated/Schemas.lean`) are the subject of the second
+part ("the derived readers as node reader"): `page_nth_bytes_partial2` (under `DerivedAgrees`), `…_partial3` (attribute-free
+trees) and `…_partial4` (boxes), with `attributes_nearest_bytes_derived`, `media_box_nearest_bytes`,
+`crop_box_nearest_bytes`, `resources_nearest_bytes` for the attribute clause. Not discharged there: nodes that carry
+/Resources (hypothesis `DerivedAgrees`) and `DefaultZeroEvaluates`; see notes/C07.md.
 -/
 
 namespace C07
@@ -208,13 +222,14 @@ open PageTree PageTreeB PdfLex OpenBytes SaveBytes RepBytes
 
 variable {R : Type}
 
-/-- **The byte-level statement**, for a reader `rd` of page-tree nodes: page `i` of the written file is the i-th leaf,
-    the page count is the number of leaves. The property asks for it with `rd` = the derived readers of `PageTree` and
-    `Page` behind the `PagesNode` dispatch (`Generated/Schemas.lean`, `Generated/Dispatch.lean`), projected to `Obj`.
-    `page_nth_bytes_partial` proves it for the hand-written `nodeOf`; `page_nth_bytes_of_reader` reduces the full
-    statement to one remaining obligation: that the generated reader agrees with `nodeOf` on the bodies `writeDoc`
-    writes (every other field of `Page` / `PageTree` is absent there, so each derived field reader returns its
-    default). -/
+/-- **The byte-level statement, for a reader `rd` of page-tree nodes that is fixed before the file**: page `i` of the
+    written file is the i-th leaf, the page count is the number of leaves. Note the quantifier order: `rd : Prim R → Obj`
+    is chosen first and sees one primitive, not the bytes, so only readers that need nothing but the node's own dictionary
+    are instances. `page_nth_bytes_partial` proves it for the hand-written `nodeOf`; `page_nth_bytes_of_reader` for every
+    `rd` that agrees with `nodeOf` on the written bodies. The *generated* reader of `Page` is **not** of this form (it
+    loads /Parent through the resolver of the opened file), so it is not and cannot be an instance of this `def`: for it
+    the statement is `page_nth_bytes_partial2` (reader depending on the opened file, hypothesis `DerivedAgrees`), which
+    supersedes this definition, and `…_partial3` / `…_partial4` where that hypothesis is discharged. -/
 def C07_bytes_full (rd : Prim R → Obj) : Prop :=
   ∀ (fmt : R → List UInt8) (env : Env R), env.decrypt = none → ∀ (pfuel : Nat)
     (dec : Dict R → List UInt8 → Out (List UInt8)), NoFilter dec → ∀ (id : Nat) (a : Attrs) (ks : List PTree) (n : Nat),
@@ -278,14 +293,17 @@ theorem page_nth_bytes_partial : C07_bytes_full (R := R) nodeOf := by
   exact page_nth_bytes_for nodeOf (fun _ _ _ _ => rfl) fmt env hd pfuel dec hdec id a ks n hn hnd hrange hm hh hc bytes hw
     hsmall hpf rfuel lfuel hl i
 
-/-- the full statement follows for every reader that agrees with `nodeOf` on the written bodies -/
+/-- `C07_bytes_full rd` for every file-independent reader `rd` that agrees with `nodeOf` on the written bodies (a
+    repackaging of `page_nth_bytes_for`). It does not reach the generated `Page` reader, which is file-dependent — see the
+    docstring of `C07_bytes_full`; `page_nth_bytes_partial2` is the statement for that reader. -/
 theorem page_nth_bytes_of_reader (rd : Prim R → Obj)
     (hrd : ∀ parent (t : PTree), ∀ q ∈ (objsOf parent t : List (Nat × Prim R)), rd q.2 = nodeOf q.2) :
     C07_bytes_full rd := by
   intro fmt env hd pfuel dec hdec id a ks n hn hnd hrange hm hh hc bytes hw hsmall hpf rfuel lfuel hl i
   exact page_nth_bytes_for rd hrd fmt env hd pfuel dec hdec id a ks n hn hnd hrange hm hh hc bytes hw hsmall hpf rfuel lfuel hl i
 
-/-- **Attributes of page i come from the nearest ancestor** — from the bytes: media box, crop box (falling back to the
+/-- **Attributes of page i come from the nearest ancestor** — from the bytes, with the hand-written node reader
+    `nodeOf` (for the generated readers see `attributes_nearest_bytes_derived`): media box, crop box (falling back to the
     media box) and resources of the page `get_page(i)` returns are the leaf's own value or that of the nearest
     ancestor of the i-th leaf in the tree that was written. -/
 theorem attributes_nearest_bytes_partial (fmt : R → List UInt8) (env : Env R) (hd : env.decrypt = none) (pfuel : Nat)
@@ -458,8 +476,10 @@ theorem page_nth_bytes_partial4 (bitsOf : R → Nat) (hdf : DefaultZeroEvaluates
   obtain ⟨rfl, _⟩ := hopen'
   exact derived_agrees_boxes_bytes bitsOf hdf _ (.node id a ks) rfl hbox hh hobjs
 
-/-- the media box of page i of such a file, read from the bytes by the generated readers, is the nearest one on the way
-    to the root -/
+/-- Despite its name this states only that, for `i` below the leaf count, page `i` read from the bytes of such a file by
+    the generated readers **is the i-th leaf** (`page_nth_bytes_partial4` with the `if` resolved) — the loaded leaf carries
+    its ancestor chain, but no attribute is mentioned in the conclusion. The statements whose conclusion is the nearest
+    box are `media_box_nearest_bytes` / `crop_box_nearest_bytes` below (kept under the old name for the merged history). -/
 theorem media_box_nearest_bytes_boxes (bitsOf : R → Nat) (hdf : DefaultZeroEvaluates) (fmt : R → List UInt8) (env : Env R)
     (hd : env.decrypt = none) (pfuel : Nat) (dec : Dict R → List UInt8 → Out (List UInt8)) (hdec : NoFilter dec) (id : Nat)
     (a : Attrs) (ks : List PTree) (n : Nat) (hn : n ≤ 1000000) (hnd : (idsOf (.node id a ks)).Nodup)
@@ -472,6 +492,91 @@ theorem media_box_nearest_bytes_boxes (bitsOf : R → Nat) (hdf : DefaultZeroEva
   have h := (page_nth_bytes_partial4 bitsOf hdf fmt env hd pfuel dec hdec id a ks n hn hnd hrange hbox hh hc bytes hw hsmall hpf
     rfuel lfuel hl i).1
   rw [h, dif_pos hi]
+
+/-! ### the attribute clause from the bytes, with the generated readers: the conclusion names the nearest attribute -/
+
+/-- **Attributes of page i come from the nearest ancestor — from the bytes, with the generated readers**, under
+    `DerivedAgrees` (the hypothesis of `page_nth_bytes_partial2`; it is what remains for nodes carrying /Resources): media
+    box, crop box (falling back to the media box) and resources of the page `getPageBD` returns are the i-th leaf's own
+    value or that of the nearest ancestor of that leaf in the tree that was written. -/
+theorem attributes_nearest_bytes_derived (bitsOf : R → Nat) (fmt : R → List UInt8) (env : Env R) (hd : env.decrypt = none)
+    (pfuel : Nat) (dec : Dict R → List UInt8 → Out (List UInt8)) (hdec : NoFilter dec) (id : Nat) (a : Attrs)
+    (ks : List PTree) (n : Nat) (hn : n ≤ 1000000) (hnd : (idsOf (.node id a ks)).Nodup)
+    (hrange : ∀ x ∈ idsOf (.node id a ks), 1 ≤ x ∧ x ≤ n) (hm : markersOK (.node id a ks) = true)
+    (hh : height (.node id a ks) ≤ 16) (hc : nLeaves (.node id a ks) ≤ 2147483647)
+    (bytes : List UInt8) (hw : writeDoc fmt (.node id a ks) n = .ok bytes)
+    (hsmall : bytes.length ≤ fileMax) (hpf : 3 * bytes.length ≤ pfuel) (rfuel lfuel : Nat) (hl : 16 < lfuel)
+    (hagree : ∀ tb T, openB env pfuel dec 2 bytes = .ok (0, tb, T) →
+      DerivedAgrees bitsOf (resolveB env pfuel dec (rfuel + 2) bytes 0 tb) (.node id a ks))
+    (i : Nat) (hi : i < (leavesOf (.node id a ks)).length) :
+    let l := (leavesOf (.node id a ks))[i]
+    let pg := getPageBD bitsOf env pfuel dec 2 (rfuel + 2) lfuel bytes i
+    (pg.bind mediaBox = match nearest (·.mediaBox) l.a (l.parent :: l.anc) with | some b => .ok b | none => .err) ∧
+    (pg.bind cropBox = match nearest (·.cropBox) l.a (l.parent :: l.anc) with | some b => .ok b | none => mediaBox l) ∧
+    (pg.bind resources = match nearest (·.resources) l.a (l.parent :: l.anc) with | some b => .ok b | none => .err) := by
+  have := (page_nth_bytes_partial2 bitsOf fmt env hd pfuel dec hdec id a ks n hn hnd hrange hm hh hc bytes hw hsmall hpf rfuel
+    lfuel hl hagree i).1
+  simp only [hi, dite_true] at this
+  simp only [this, Out.bind_ok]
+  exact ⟨media_box_nearest _, crop_box_nearest _, resources_nearest _⟩
+
+/-- **The media box of page i, read from the bytes by the generated readers, is the page's own or that of the nearest
+    ancestor that has one** (`Err` when nobody has one) — for trees whose nodes carry media / crop boxes (markers below
+    2²⁴, no /Resources); the only hypothesis about the reader is `DefaultZeroEvaluates`. -/
+theorem media_box_nearest_bytes (bitsOf : R → Nat) (hdf : DefaultZeroEvaluates) (fmt : R → List UInt8) (env : Env R)
+    (hd : env.decrypt = none) (pfuel : Nat) (dec : Dict R → List UInt8 → Out (List UInt8)) (hdec : NoFilter dec) (id : Nat)
+    (a : Attrs) (ks : List PTree) (n : Nat) (hn : n ≤ 1000000) (hnd : (idsOf (.node id a ks)).Nodup)
+    (hrange : ∀ x ∈ idsOf (.node id a ks), 1 ≤ x ∧ x ≤ n) (hbox : boxOnly (.node id a ks) = true)
+    (hh : height (.node id a ks) ≤ 16) (hc : nLeaves (.node id a ks) ≤ 2147483647)
+    (bytes : List UInt8) (hw : writeDoc fmt (.node id a ks) n = .ok bytes)
+    (hsmall : bytes.length ≤ fileMax) (hpf : 3 * bytes.length ≤ pfuel) (rfuel lfuel : Nat) (hl : 16 < lfuel) (i : Nat)
+    (hi : i < (leavesOf (.node id a ks)).length) :
+    (getPageBD bitsOf env pfuel dec 2 (rfuel + 2) lfuel bytes i).bind mediaBox =
+      match nearest (·.mediaBox) ((leavesOf (.node id a ks))[i]).a
+              (((leavesOf (.node id a ks))[i]).parent :: ((leavesOf (.node id a ks))[i]).anc) with
+      | some b => .ok b
+      | none => .err := by
+  rw [media_box_nearest_bytes_boxes bitsOf hdf fmt env hd pfuel dec hdec id a ks n hn hnd hrange hbox hh hc bytes hw hsmall hpf rfuel lfuel hl i hi, Out.bind_ok]
+  exact media_box_nearest _
+
+/-- the same for the crop box: own, else the nearest ancestor's crop box, else the media box (own or inherited) -/
+theorem crop_box_nearest_bytes (bitsOf : R → Nat) (hdf : DefaultZeroEvaluates) (fmt : R → List UInt8) (env : Env R)
+    (hd : env.decrypt = none) (pfuel : Nat) (dec : Dict R → List UInt8 → Out (List UInt8)) (hdec : NoFilter dec) (id : Nat)
+    (a : Attrs) (ks : List PTree) (n : Nat) (hn : n ≤ 1000000) (hnd : (idsOf (.node id a ks)).Nodup)
+    (hrange : ∀ x ∈ idsOf (.node id a ks), 1 ≤ x ∧ x ≤ n) (hbox : boxOnly (.node id a ks) = true)
+    (hh : height (.node id a ks) ≤ 16) (hc : nLeaves (.node id a ks) ≤ 2147483647)
+    (bytes : List UInt8) (hw : writeDoc fmt (.node id a ks) n = .ok bytes)
+    (hsmall : bytes.length ≤ fileMax) (hpf : 3 * bytes.length ≤ pfuel) (rfuel lfuel : Nat) (hl : 16 < lfuel) (i : Nat)
+    (hi : i < (leavesOf (.node id a ks)).length) :
+    (getPageBD bitsOf env pfuel dec 2 (rfuel + 2) lfuel bytes i).bind cropBox =
+      match nearest (·.cropBox) ((leavesOf (.node id a ks))[i]).a
+              (((leavesOf (.node id a ks))[i]).parent :: ((leavesOf (.node id a ks))[i]).anc) with
+      | some b => .ok b
+      | none => mediaBox ((leavesOf (.node id a ks))[i]) := by
+  rw [media_box_nearest_bytes_boxes bitsOf hdf fmt env hd pfuel dec hdec id a ks n hn hnd hrange hbox hh hc bytes hw hsmall hpf rfuel lfuel hl i hi, Out.bind_ok]
+  exact crop_box_nearest _
+
+/-- **Resources of page i, read from the bytes by the generated readers, are the page's own or the nearest ancestor's** —
+    under `DerivedAgrees`: trees that carry /Resources are outside `boxOnly`, so unlike the two box theorems this one keeps
+    the agreement of the generated `Resources` reader with `nodeOf` as a hypothesis (third conjunct of
+    `attributes_nearest_bytes_derived`; the driver evaluates the hypothesis per file, request `c07.agree`). -/
+theorem resources_nearest_bytes (bitsOf : R → Nat) (fmt : R → List UInt8) (env : Env R) (hd : env.decrypt = none)
+    (pfuel : Nat) (dec : Dict R → List UInt8 → Out (List UInt8)) (hdec : NoFilter dec) (id : Nat) (a : Attrs)
+    (ks : List PTree) (n : Nat) (hn : n ≤ 1000000) (hnd : (idsOf (.node id a ks)).Nodup)
+    (hrange : ∀ x ∈ idsOf (.node id a ks), 1 ≤ x ∧ x ≤ n) (hm : markersOK (.node id a ks) = true)
+    (hh : height (.node id a ks) ≤ 16) (hc : nLeaves (.node id a ks) ≤ 2147483647)
+    (bytes : List UInt8) (hw : writeDoc fmt (.node id a ks) n = .ok bytes)
+    (hsmall : bytes.length ≤ fileMax) (hpf : 3 * bytes.length ≤ pfuel) (rfuel lfuel : Nat) (hl : 16 < lfuel)
+    (hagree : ∀ tb T, openB env pfuel dec 2 bytes = .ok (0, tb, T) →
+      DerivedAgrees bitsOf (resolveB env pfuel dec (rfuel + 2) bytes 0 tb) (.node id a ks))
+    (i : Nat) (hi : i < (leavesOf (.node id a ks)).length) :
+    (getPageBD bitsOf env pfuel dec 2 (rfuel + 2) lfuel bytes i).bind resources =
+      match nearest (·.resources) ((leavesOf (.node id a ks))[i]).a
+              (((leavesOf (.node id a ks))[i]).parent :: ((leavesOf (.node id a ks))[i]).anc) with
+      | some b => .ok b
+      | none => .err :=
+  (attributes_nearest_bytes_derived bitsOf fmt env hd pfuel dec hdec id a ks n hn hnd hrange hm hh hc bytes hw hsmall hpf rfuel
+    lfuel hl hagree i hi).2.2
 
 /-! ### non-vacuity at byte level: a document is written, its bytes are opened, its pages are found -/
 
@@ -500,5 +605,91 @@ example : (match writeDoc (R := List UInt8) id exT 4 with
           | _ => [])
     | _ => (false, 0, [])) =
     (true, 3, [[1, 12, 13, 6], [4, 14, 14, 6], []]) := by decide +kernel
+
+/-! ### non-vacuity of `page_nth_bytes_partial3` / `page_nth_bytes_partial4` (and the two box corollaries)
+
+Every hypothesis of the two theorems is instantiated on a concrete document, except `DefaultZeroEvaluates`, which the kernel
+cannot decide (`String.toInt?` does not reduce; the driver evaluates it, request `c07.dflt0`) and which therefore stays a
+hypothesis of the examples. The conclusions are then specialised to concrete pages. (The derived composition itself is
+not kernel-evaluable for the same reason; the driver runs it on every file of the stream `c07.bytes.derived`.) -/
+
+/-- root 3 (media box 11) with leaf 1 (crop box 12) and node 2 (crop box 15) with leaf 4 (media box 13): boxes only -/
+def exB : PTree :=
+  .node 3 ⟨some 11, none, none⟩ [.leaf 1 ⟨none, some 12, none⟩, .node 2 ⟨none, some 15, none⟩ [.leaf 4 ⟨some 13, none, none⟩]]
+/-- the same shape without attributes -/
+def exF : PTree := .node 3 noAttrs [.leaf 1 noAttrs, .node 2 noAttrs [.leaf 4 noAttrs]]
+
+theorem exDec_noFilter : NoFilter exDec := by
+  intro d raw h
+  simp only [exDec, h]
+
+example : boxOnly exB = true ∧ (idsOf exB).Nodup ∧ (∀ x ∈ idsOf exB, 1 ≤ x ∧ x ≤ 4) ∧ height exB ≤ 16 ∧
+    nLeaves exB ≤ 2147483647 ∧ (leavesOf exB).length = 2 := by decide
+example : attrFree exF = true ∧ (idsOf exF).Nodup ∧ (∀ x ∈ idsOf exF, 1 ≤ x ∧ x ≤ 4) ∧ height exF ≤ 16 ∧
+    nLeaves exF ≤ 2147483647 ∧ (leavesOf exF).length = 2 := by decide
+
+/-- the writer succeeds on both documents and the files are small -/
+theorem exB_written : ∃ bytes, writeDoc (R := List UInt8) id exB 4 = .ok bytes ∧ bytes.length ≤ fileMax := by
+  have h : (match writeDoc (R := List UInt8) id exB 4 with | .ok b => decide (b.length ≤ fileMax) | _ => false) = true := by
+    decide +kernel
+  cases hw : writeDoc (R := List UInt8) id exB 4 with
+  | ok b => rw [hw] at h; exact ⟨b, rfl, by simpa using h⟩
+  | err => rw [hw] at h; cases h
+  | panic => rw [hw] at h; cases h
+  | oof => rw [hw] at h; cases h
+theorem exF_written : ∃ bytes, writeDoc (R := List UInt8) id exF 4 = .ok bytes ∧ bytes.length ≤ fileMax := by
+  have h : (match writeDoc (R := List UInt8) id exF 4 with | .ok b => decide (b.length ≤ fileMax) | _ => false) = true := by
+    decide +kernel
+  cases hw : writeDoc (R := List UInt8) id exF 4 with
+  | ok b => rw [hw] at h; exact ⟨b, rfl, by simpa using h⟩
+  | err => rw [hw] at h; cases h
+  | panic => rw [hw] at h; cases h
+  | oof => rw [hw] at h; cases h
+
+/-- `page_nth_bytes_partial3` instantiated: the written attribute-free document has two pages, page 1 is object 4 below
+    node 2 below root 3, page 2 is out of bounds -/
+example (hdf : DefaultZeroEvaluates) : ∃ bytes, writeDoc (R := List UInt8) id exF 4 = .ok bytes ∧
+    numPagesBD (fun _ => 0) exEnv (3 * bytes.length) exDec 2 3 17 bytes = .ok 2 ∧
+    (getPageBD (fun _ => 0) exEnv (3 * bytes.length) exDec 2 3 17 bytes 1).bind (fun l => .ok (l.id, l.parent.id, l.anc.map (·.id)))
+      = .ok (4, 2, [3]) ∧
+    getPageBD (fun _ => 0) exEnv (3 * bytes.length) exDec 2 3 17 bytes 2 = .err := by
+  obtain ⟨bytes, hw, hsmall⟩ := exF_written
+  refine ⟨bytes, hw, ?_⟩
+  have h := fun i => page_nth_bytes_partial3 (fun _ => 0) hdf id exEnv rfl (3 * bytes.length) exDec exDec_noFilter 3 noAttrs
+    [.leaf 1 noAttrs, .node 2 noAttrs [.leaf 4 noAttrs]] 4 (by decide) (by decide) (by decide) (by decide) (by decide) (by decide)
+    bytes hw hsmall (Nat.le_refl _) 1 17 (by decide) i
+  refine ⟨?_, ?_, ?_⟩
+  · rw [(h 0).2]; rfl
+  · rw [(h 1).1]; rfl
+  · rw [(h 2).1]; rfl
+
+/-- `page_nth_bytes_partial4`, `media_box_nearest_bytes`, `crop_box_nearest_bytes` instantiated: page 0 (object 1) has its
+    own crop box 12 and inherits media box 11 from the root; page 1 (object 4) has its own media box 13 and inherits crop
+    box 15 from node 2 (not from further up) -/
+example (hdf : DefaultZeroEvaluates) : ∃ bytes, writeDoc (R := List UInt8) id exB 4 = .ok bytes ∧
+    numPagesBD (fun _ => 0) exEnv (3 * bytes.length) exDec 2 3 17 bytes = .ok 2 ∧
+    (getPageBD (fun _ => 0) exEnv (3 * bytes.length) exDec 2 3 17 bytes 0).bind mediaBox = .ok 11 ∧
+    (getPageBD (fun _ => 0) exEnv (3 * bytes.length) exDec 2 3 17 bytes 0).bind cropBox = .ok 12 ∧
+    (getPageBD (fun _ => 0) exEnv (3 * bytes.length) exDec 2 3 17 bytes 1).bind mediaBox = .ok 13 ∧
+    (getPageBD (fun _ => 0) exEnv (3 * bytes.length) exDec 2 3 17 bytes 1).bind cropBox = .ok 15 ∧
+    getPageBD (fun _ => 0) exEnv (3 * bytes.length) exDec 2 3 17 bytes 2 = .err := by
+  obtain ⟨bytes, hw, hsmall⟩ := exB_written
+  refine ⟨bytes, hw, ?_⟩
+  have h := fun i => page_nth_bytes_partial4 (fun _ => 0) hdf id exEnv rfl (3 * bytes.length) exDec exDec_noFilter 3
+    ⟨some 11, none, none⟩ [.leaf 1 ⟨none, some 12, none⟩, .node 2 ⟨none, some 15, none⟩ [.leaf 4 ⟨some 13, none, none⟩]] 4
+    (by decide) (by decide) (by decide) (by decide) (by decide) (by decide) bytes hw hsmall (Nat.le_refl _) 1 17 (by decide) i
+  have hm := fun i hi => media_box_nearest_bytes (fun _ => 0) hdf id exEnv rfl (3 * bytes.length) exDec exDec_noFilter 3
+    ⟨some 11, none, none⟩ [.leaf 1 ⟨none, some 12, none⟩, .node 2 ⟨none, some 15, none⟩ [.leaf 4 ⟨some 13, none, none⟩]] 4
+    (by decide) (by decide) (by decide) (by decide) (by decide) (by decide) bytes hw hsmall (Nat.le_refl _) 1 17 (by decide) i hi
+  have hcb := fun i hi => crop_box_nearest_bytes (fun _ => 0) hdf id exEnv rfl (3 * bytes.length) exDec exDec_noFilter 3
+    ⟨some 11, none, none⟩ [.leaf 1 ⟨none, some 12, none⟩, .node 2 ⟨none, some 15, none⟩ [.leaf 4 ⟨some 13, none, none⟩]] 4
+    (by decide) (by decide) (by decide) (by decide) (by decide) (by decide) bytes hw hsmall (Nat.le_refl _) 1 17 (by decide) i hi
+  refine ⟨?_, ?_, ?_, ?_, ?_, ?_⟩
+  · rw [(h 0).2]; rfl
+  · rw [hm 0 (by decide)]; rfl
+  · rw [hcb 0 (by decide)]; rfl
+  · rw [hm 1 (by decide)]; rfl
+  · rw [hcb 1 (by decide)]; rfl
+  · rw [(h 2).1]; rfl
 
 end C07
